@@ -114,7 +114,9 @@ def catalogue():
 
 def clip_programs():
     out = []
-    for t, bounds in (("int", [(-1, 1), (0, 0), (-7, 2), (2, 7)]), ("float", [(-0.75, 0.25), (0.0, 1.5)])):
+    # (integer column with one or two fractional bounds: the result is a float, the bound is not truncated)
+    for t, bounds in (("int", [(-1, 1), (0, 0), (-7, 2), (2, 7), (0, 1.5), (-0.5, 2), (-0.5, 0.5), (-8, -0.5)]),
+                      ("float", [(-0.75, 0.25), (0.0, 1.5), (0, 1), (-1, 0.25)])):
         for lo, hi in bounds:
             out.append((f"clip[{lo},{hi}]", (t,), ["clip", A(0), L(lo), L(hi)]))
     return out
